@@ -280,6 +280,20 @@ def gen_c15_world(seed, index, tier):
         if not any(e[0] == 'l' and e[2].endswith('ext/lib') for e in tree) and 'w/vendor' not in have:
             tree.append(['l', 'w/vendor', '../ext/lib'])
             links.append('w/vendor')
+    want_glob = r.random() < 0.12
+    if want_glob:
+        # an argument whose real name contains shell-pattern characters, next to an entry that the name matches when
+        # it is (wrongly) read as a pattern
+        have = set(e[1] for e in tree)
+        for ent in (['d', 'w/pkg[1]'], ['f', 'w/pkg[1]/mod.py', E(pick_content(r, True)[1]), None], ['d', 'w/pkg1'],
+                    ['f', 'w/pkg1/mod.py', E(pick_content(r, True)[1]), None], ['f', 'w/tool[ab].py', E(pick_content(r, True)[1]), None],
+                    ['f', 'w/toola.py', E(pick_content(r, True)[1]), None]):
+            if ent[1] not in have:
+                tree.append(ent)
+                if ent[0] == 'd':
+                    dirs.append(ent[1])
+                else:
+                    files.append((ent[1], True, 'glob-twin'))
     cwd = r.choice(['', '', '', 'w'])
     absolute = r.random() < 0.25
     cmd = {'flags': gen_flags(r), 'preserve': [], 'paths': []}
@@ -311,6 +325,8 @@ def gen_c15_world(seed, index, tier):
                 choices.append(choices[0])                   # listed twice
             else:
                 choices.append('w')
+        if want_glob:
+            choices[0] = r.choice(['w/pkg[1]', 'w/tool[ab].py'])
         dirset = set(dirs)
         cmd['paths'] = [respell(r, rel_to_cwd(c, cwd, absolute=absolute), c in dirset, dirs) for c in choices]
         # `link/..` : for the kernel that is the parent of the link's TARGET, not the directory holding the link
